@@ -21,8 +21,9 @@ LEVEL_TEXT = (
     "offspring gene containers are copied to full depth, and no variation operator hands back the parent object "
     "itself as the offspring on any path (the next in-place growth or cached phenotype would then be shared); "
     "(R4) no unguarded subscript read on an attribute that holds an auto-vivifying defaultdict (guards include "
-    "guard clauses and short-circuit operands). Decides these for all parents and populations; aliasing through "
-    "dynamic attribute names is not decided."
+    "guard clauses and short-circuit operands; no subscript read at all - lookups through .get / membership - is "
+    "the safe case). Decides these for all parents and populations; aliasing through dynamic attribute names is "
+    "not decided."
 )
 
 ALLOW = {
